@@ -36,6 +36,19 @@ Definition ok (c : casety) : nat :=
   match n with 0 => 1 | 1 => 0 | _ => 2 end.
 '''
 
+OK_E = r'''
+(* case: the crossings that exist by construction (exact count), the pairs returned *)
+Definition casety : Type := (list (Qc * Qc) * list (Qc * Qc))%type.
+Definition e4 : Qc := @E4@.
+Definition hits (e : Qc * Qc) (res : list (Qc * Qc)) : nat :=
+  length (filter (fun uu => qclose e4 (fst e) (fst uu) && qclose e4 (snd e) (snd uu)) res).
+Definition ok (c : casety) : nat :=
+  let '(expected, res) := c in
+  if existsb (fun e => Nat.eqb (hits e res) 0) expected then 1            (* a crossing is not reported *)
+  else if existsb (fun e => Nat.ltb 1 (hits e res)) expected then 2       (* ... reported more than once *)
+  else if Nat.eqb (length res) (length expected) then 0 else 3.           (* pairs that are no crossing *)
+'''
+
 OK_B = r'''
 From Bignums Require Import BigQ.
 From SVP Require Import Model.Bezier Model.Isect Model.IsectExec.
@@ -277,6 +290,146 @@ def run_A(rep, K, tmp, items, secs):
                  'not reported' if code == 1 else 'reported %d times' % len(near), res[:6]),
               replay_pair(d1, d2, {'crossing': list(tt), 'returned': res[:40], 'family': m['family'], 'angle': m.get('angle')}),
               size)
+    return len(cases), errors, stats
+
+
+# ----------------------------------------------------------------- E
+def exact_line_ellipse(arc, l0, l1):
+    """line parameters s of the two crossings of the line l0->l1 with the FULL ellipse of an
+    unrotated arc (stored center / radii), solved in 60-digit decimals; [] when there is none;
+    None when the discriminant is too close to 0 to be called"""
+    from decimal import Decimal, getcontext
+    getcontext().prec = 60
+    D_ = Decimal
+    cx, cy = D_(arc.center.real), D_(arc.center.imag)
+    a, b = D_(arc.radius.real), D_(arc.radius.imag)
+    x0, y0 = D_(l0.real) - cx, D_(l0.imag) - cy
+    dx, dy = D_(l1.real) - D_(l0.real), D_(l1.imag) - D_(l0.imag)
+    A = dx * dx / (a * a) + dy * dy / (b * b)
+    B = 2 * (x0 * dx / (a * a) + y0 * dy / (b * b))
+    C = x0 * x0 / (a * a) + y0 * y0 / (b * b) - 1
+    disc = B * B - 4 * A * C
+    if abs(disc) < D_('1e-9') * B * B + D_('1e-24'):
+        return None
+    if disc < 0:
+        return []
+    r = disc.sqrt()
+    out = []
+    for s_ in ((-B - r) / (2 * A), (-B + r) / (2 * A)):
+        out.append((float(s_), complex(float(D_(l0.real) + s_ * dx), float(D_(l0.imag) + s_ * dy))))
+    return out
+
+
+def near_axis_case(rng):
+    """an unrotated circular / elliptical arc (possibly far from the origin) and a Line that is
+    exactly or ALMOST axis-parallel (tilt log-uniform 1e-9..1e-3, either sign, either axis) crossing
+    the ellipse twice, once, nearly tangentially (two close crossings) or just not; the crossings
+    with the arc are computed from the exact line-ellipse quadratic.  Returns (d_arc, d_line,
+    expected [(t_arc, t_line)], meta) or None when a crossing is too close to an end to be called"""
+    scale = rng.choice([1.0, 10.0, 100.0])
+    sub = rng.choice(['circ', 'ell'])
+    d = ic.random_arc(rng, scale, sub)
+    if rng.random() < 0.4:                         # far from the origin / from y = 0
+        d = ic.shift_desc(d, complex(rng.choice([0, 1, -1]) * rng.uniform(50, 2000) * scale,
+                                     rng.choice([1, -1]) * rng.uniform(50, 2000) * scale))
+    arc = ic.mkseg(d)
+    a, b = arc.radius.real, arc.radius.imag
+    tilt = 0.0 if rng.random() < 0.2 else rng.choice([1, -1]) * 10 ** rng.uniform(-9, -3)
+    vertical = rng.random() < 0.5
+    shape = rng.choice(['twice', 'twice', 'once', 'near-tangent-in', 'near-tangent-out', 'through-arc-point'])
+    half = b if not vertical else a                # half extent of the ellipse across the line direction
+    along = a if not vertical else b
+    if shape == 'through-arc-point':
+        P = arc.point(rng.uniform(0.15, 0.85))
+        off = None
+    elif shape.startswith('near-tangent'):
+        dl = 10 ** rng.uniform(-3, -2)
+        off = rng.choice([1, -1]) * half * (1 - dl if shape.endswith('in') else 1 + dl)
+    else:
+        off = rng.uniform(-0.9, 0.9) * half
+    if off is not None:
+        P = arc.center + (1j * off if not vertical else off) + (rng.uniform(-0.3, 0.3) * along) * (1 if not vertical else 1j)
+    dirn = complex(1, tilt) if not vertical else complex(tilt, 1)
+    L = 2.5 * along
+    if shape == 'once':
+        l0, l1 = P, P + dirn * L * rng.choice([1, -1])          # starts inside the ellipse
+    else:
+        l0, l1 = P - dirn * L * rng.uniform(0.6, 1.0), P + dirn * L * rng.uniform(0.6, 1.0)
+    sols = exact_line_ellipse(arc, l0, l1)
+    if sols is None:
+        return None
+    expected = []
+    for s_, p in sols:
+        if min(abs(s_), abs(s_ - 1)) < 1e-6:
+            return None
+        if not (0 < s_ < 1):
+            continue
+        ta = ic.arc_t_of_point(arc, p)
+        if ta is None or min(abs(ta), abs(ta - 1)) < 1e-6 or abs(arc.delta) >= 360 - 1e-9:
+            return None
+        # the representative of the angle inside the arc's sweep, if any
+        if 0 < ta < 1:
+            expected.append((ta, s_))
+    if len(expected) == 2 and abs(expected[0][0] - expected[1][0]) < 1e-3:
+        return None
+    meta = {'family': 'near-axis-parallel-line-x-arc', 'tilt': tilt, 'axis': 'vertical' if vertical else 'horizontal',
+            'shape': shape, 'arc': sub, 'far': abs(arc.center) > 40 * scale}
+    return d, ('L', l0, l1), expected, meta
+
+
+def run_E(rep, K, tmp, rng, n, secs, only=None):
+    from svgpathtools import Path
+    cases, meta = [], []
+    stats = collections.Counter()
+    items = list(only) if only else []
+    for i in range(4 * n):
+        if len(items) >= n:
+            break
+        try:
+            r = near_axis_case(rng)
+        except Exception:
+            r = None
+        if r is not None:
+            items.append(r)
+    for da, dl, expected, m in items:
+        arc, line = ic.mkseg(da), ic.mkseg(dl)
+        band = 'exact' if m['tilt'] == 0 else '1e%d' % math.floor(math.log10(abs(m['tilt'])))
+        stats['E:tilt ' + band] += 1
+        stats['E:expected crossings = %d' % len(expected)] += 1
+        calls = (('Arc.intersect(Line)', lambda: arc.intersect(line), False),
+                 ('Line.intersect(Arc)', lambda: line.intersect(arc), True),
+                 ('Path.intersect', lambda: [(e[0][2], e[1][2]) for e in Path(arc).intersect(Path(line))], False))
+        for name, f, swapped in calls:
+            st, val = ic.guarded(f, secs)
+            if st == 'timeout':
+                stats['timeouts-skipped'] += 1
+                continue
+            if st != 'ok':
+                K.add('arc-line-algebraic-exception-%s' % type(val).__name__,
+                      'C12: %s raised %r for a (nearly) axis-parallel line and an unrotated arc' % (name, val),
+                      replay_pair(da, dl, {'family': m['family'], 'meta': m}), ic.pair_size(arc, line))
+                continue
+            res = [(float(y), float(x)) if swapped else (float(x), float(y)) for x, y in val]
+            cases.append('(%s, %s)' % (ic.pairs_term(expected), ic.pairs_term(res)))
+            meta.append((da, dl, expected, res, m, name))
+    fails, errors = common.run_cases(tmp, '', 'casety', OK_E.replace('@E4@', qc(1e-4)), cases, shard=200, prefix='e')
+    for idx, code in fails:
+        da, dl, expected, res, m, name = meta[idx]
+        near = 'exactly' if m['tilt'] == 0 else 'nearly'
+        if code == 1:
+            key = 'arc-line-algebraic-missed-%s-axis-parallel' % near
+            what = 'a crossing is not reported'
+        elif code == 2:
+            key = ic.pinned_key('arc-line-algebraic-duplicate-%s-axis-parallel' % near, ic.detect_variants()['al_fixed'])
+            what = 'a crossing is reported more than once'
+        else:
+            key = 'arc-line-algebraic-extra-pair'
+            what = 'pairs are returned that are no crossing'
+        K.add(key, 'C12: %s, %s %s line (tilt %.3g) x unrotated %s arc%s: %s; exact crossings %s, returned %s'
+              % (name, near, m['axis'], m['tilt'], 'circular' if m['arc'] == 'circ' else 'elliptical',
+                 ' far from the origin' if m['far'] else '', what, expected, res[:6]),
+              replay_pair(da, dl, {'family': m['family'], 'crossings': [list(e) for e in expected], 'returned': res[:12],
+                                   'tilt': m['tilt'], 'call': name}), ic.pair_size(ic.mkseg(da), ic.mkseg(dl)))
     return len(cases), errors, stats
 
 
@@ -625,7 +778,11 @@ def run(rep, tier, seed, replay=None):
             r = json.load(open(replay))['replay']
             if r.get('kind') == 'pair':
                 d1, d2 = ic.desc_unhex(r['seg1']), ic.desc_unhex(r['seg2'])
-                if 'crossing' in r:
+                if r.get('family') == 'near-axis-parallel-line-x-arc':
+                    run_E(rep, K, tmp, rng, 0, secs, only=[(d1, d2, [tuple(c) for c in r['crossings']],
+                                                            {'family': r['family'], 'tilt': r.get('tilt', 1.0), 'axis': '?',
+                                                             'shape': 'replay', 'arc': ic.arc_kind(d1)[:4], 'far': False})])
+                elif 'crossing' in r:
                     run_A(rep, K, tmp, [(d1, d2, [tuple(r['crossing'])], {'family': r.get('family', 'replay')})], secs)
                 elif 'crossings' in r:
                     run_A(rep, K, tmp, [(d1, d2, [tuple(c) for c in r['crossings']], {'family': r.get('family', 'replay')})], secs)
@@ -643,23 +800,28 @@ def run(rep, tier, seed, replay=None):
         nB, eB, sB = run_B(rep, K, tmp, gen_B(rng, (220 if quick else 3000) * boost, (60 if quick else 6000) * boost), secs)
         nC, eC, sC = run_C(rep, K, tmp, rng, (40 if quick else 400) * boost, (40 if quick else 400) * boost, secs)
         nD, eD = run_D(rep, K, tmp, rng, (150 if quick else 2000) * boost)
-        for e in eA + eB + eC + eD:
+        # nearly axis-parallel lines x unrotated arcs (drawn last: the streams above are unchanged)
+        nE, eE, sE = run_E(rep, K, tmp, rng, (80 if quick else 1500) * boost, secs)
+        for e in eA + eB + eC + eD + eE:
             rep.violation('C12 case file failed to evaluate', {'kind': 'cases', 'error': e}, found_input=False, key='cases-error')
         K.flush()
-        stats = dict(sA); stats.update(sB); stats.update(sC)
-        rep.cov['evaluations'] = nA + nB + nC + nD
+        stats = dict(sA); stats.update(sB); stats.update(sC); stats.update(sE)
+        rep.cov['evaluations'] = nA + nB + nC + nD + nE
         rep.cov['traces_validated_against_impl'] = nB + nD
         rep.cov['distinct_nontrivial'] = nA + nB
         rep.cov['rule'] = ('A: constructed transversal crossings (all 16 ordered kind pairs, two arcs only circular+unrotated; '
                            'axis-parallel straight curves; aligned parabolas with two rational crossing parameters); '
                            'B: Line/Bezier pairs passing a float general-position pre-filter, exact crossing number by Sturm/Tarski '
                            'counting in Coq over Q (undecided cases are counted, not claimed); C: paths of 1-4 segments with '
-                           'crossings strictly inside segments, poly-line totals; D: polyroots01 on supplied root lists. '
+                           'crossings strictly inside segments, poly-line totals; D: polyroots01 on supplied root lists; E: exactly / nearly '
+                           'axis-parallel lines (tilt 1e-9..1e-3) x unrotated circular/elliptical arcs, crossings from the exact '
+                           'line-ellipse quadratic, three call forms. '
                            'non-trivial = a crossing exists by construction (A) or the exact count was decided (B)')
         rep.cov['input_distribution'] = stats
         rep.cov['samples'] = [{'seg1': repr(ic.mkseg(d1)), 'seg2': repr(ic.mkseg(d2)), 'constructed_crossings': cr,
                                'family': m['family']} for d1, d2, cr, m in itemsA[:3]]
-        rep.cov['case_counts'] = {'A_constructed_crossings': nA, 'B_exact_counts': nB, 'C_path': nC, 'D_polyroots_lists': nD}
+        rep.cov['case_counts'] = {'A_constructed_crossings': nA, 'B_exact_counts': nB, 'C_path': nC, 'D_polyroots_lists': nD,
+                                  'E_near_axis_parallel_arc_line': nE}
         if info['agree_failed'] and not rep.violations:
             rep.violation('agreement lemma(s) %s no longer check' % info['agree_failed'],
                           {'kind': 'agreement', 'lemmas': info['agree_failed'], 'file': 'coq/GenAgree/Isect.v'},
